@@ -83,11 +83,11 @@ class ClassInfo:
 
 
 class ModuleInfo:
-  def __init__(self, name, path, source):
+  def __init__(self, name, path, source, rel=None):
     self.name = name
     self.path = path
     self.source = source
-    self.tree = orient_comparisons(ast.parse(source, filename=path))
+    self.tree = inline_new_temporaries(orient_comparisons(ast.parse(source, filename=path)), rel)
     self.imports = {}     # local name -> ('module', modname) | ('symbol', modname, sym)
     self.functions = {}   # top-level name -> FuncInfo
     self.classes = {}     # top-level name -> ClassInfo
@@ -159,7 +159,7 @@ class Program:
       h.update(rel.encode())
       h.update(src.encode())
       try:
-        mi = ModuleInfo(modname, path, src)
+        mi = ModuleInfo(modname, path, src, rel)
         mi.rel = rel
       except SyntaxError as e:
         raise AnalysisError('cannot parse %s: %s' % (rel, e))
@@ -455,6 +455,115 @@ def _shape(n):
   if isinstance(n, list):
     return '[' + ' '.join(_shape(x) for x in n) + ']'
   return repr(n)
+
+
+def _qualnames(tree):
+  out = []
+
+  def walk(node, prefix):
+    for n in node.body:
+      if isinstance(n, (ast.FunctionDef, ast.AsyncFunctionDef)):
+        q = prefix + n.name
+        out.append((q, n))
+        walk(n, q + '.<locals>.')
+      elif isinstance(n, ast.ClassDef):
+        walk(n, prefix + n.name + '.')
+      else:
+        for field in ('body', 'orelse', 'finalbody'):
+          v = getattr(n, field, None)
+          if isinstance(v, list) and v and isinstance(v[0], ast.stmt):
+            walk(_B(v), prefix)
+  walk(tree, '')
+  return out
+
+
+class _B:
+  def __init__(self, body):
+    self.body = body
+
+
+def inline_new_temporaries(tree, rel):
+  """Normalisation applied to every parsed module: a local that the reference version of the function (the one the rules
+  were confirmed on, reference/signatures.json) does not have, bound by `t = <value>` and read exactly once, in the
+  immediately following plain statement of the same statement list, is folded into that statement.  Nothing can happen
+  between the two statements, so this is the same computation: naming an intermediate value does not change what the rules see."""
+  if os.environ.get('VERIF_NO_INLINE') or rel is None:
+    return tree
+  from . import reference
+  ref = reference.load().get('locals', {})
+  for q, fn in _qualnames(tree):
+    known = ref.get(reference.key(rel, q))
+    if known is None:
+      continue
+    known = set(known)
+    fresh_names = set(n.id for n in ast.walk(fn) if isinstance(n, ast.Name)) - known
+    if not fresh_names:
+      continue
+    refsig = reference.load().get('functions', {}).get(reference.key(rel, q))
+    if refsig is None or reference.signature(fn) == refsig:
+      continue        # same arrangement of statements: the new name is a renaming, not an extra statement
+    # fold one new temporary at a time, and only while that brings the function closer to the reference arrangement
+    for name in sorted(fresh_names):
+      before = reference.distance(refsig, reference.signature(fn))
+      if before == 0:
+        break
+      import copy
+      saved = copy.deepcopy(fn.body)
+      _inline_in(fn, {name})
+      if reference.distance(refsig, reference.signature(fn)) >= before:
+        fn.body = saved
+  return tree
+
+
+def _inline_in(fn, only):
+  if True:
+    changed = True
+    while changed:
+      changed = False
+      counts = {}
+      for n in ast.walk(fn):
+        if isinstance(n, ast.Name):
+          counts[n.id] = counts.get(n.id, 0) + 1
+      params = set(a.arg for a in fn.args.posonlyargs + fn.args.args + fn.args.kwonlyargs)
+      for owner in ast.walk(fn):
+        for field in ('body', 'orelse', 'finalbody'):
+          blk = getattr(owner, field, None)
+          if not (isinstance(blk, list) and blk and isinstance(blk[0], ast.stmt)):
+            continue
+          for i in range(len(blk) - 1):
+            a, b = blk[i], blk[i + 1]
+            if not (isinstance(a, ast.Assign) and len(a.targets) == 1 and isinstance(a.targets[0], ast.Name)):
+              continue
+            t = a.targets[0].id
+            if t not in only:
+              continue
+            if counts.get(t) != 2 or t in params or isinstance(b, (ast.FunctionDef, ast.AsyncFunctionDef, ast.ClassDef, ast.For, ast.While, ast.With, ast.Try)):
+              continue
+            # the single read must be in b's own expressions (not in a nested block) and must be evaluated unconditionally first enough:
+            # restrict to plain statements and to the test of an if
+            if isinstance(b, (ast.Assign, ast.AugAssign, ast.AnnAssign, ast.Return, ast.Expr)):
+              hosts = [b]
+            else:
+              continue      # tests of if/while, raise, assert: left alone (a name there usually carries a role the rules read)
+            reads = [n for h in hosts for n in ast.walk(h) if isinstance(n, ast.Name) and n.id == t and isinstance(n.ctx, ast.Load)]
+            if len(reads) != 1:
+              continue
+            if any(isinstance(n, (ast.Lambda, ast.ListComp, ast.SetComp, ast.DictComp, ast.GeneratorExp)) and any(x is reads[0] for x in ast.walk(n)) for h in hosts for n in ast.walk(h)):
+              continue      # would be evaluated later / repeatedly
+            val = a.value
+
+            class Sub(ast.NodeTransformer):
+              def visit_Name(self, node):
+                return val if node is reads[0] else node
+            Sub().visit(b)
+            del blk[i]
+            changed = True
+            break
+          if changed:
+            break
+        if changed:
+          break
+  return fn
 
 
 def norm_text(node):
